@@ -38,6 +38,10 @@ type Watcher struct {
 var (
 	mu       sync.Mutex
 	watchers []*Watcher
+	// OnNewWatcher runs inside NewWatcher, OnAdded right after a watch was registered: the simulator's
+	// chance to let something happen to the file between the steps of a datasource's start-up.
+	OnNewWatcher func()
+	OnAdded      func()
 )
 
 // NewWatcher creates a watcher and registers it so that the simulator can find it.
@@ -45,7 +49,11 @@ func NewWatcher() (*Watcher, error) {
 	w := &Watcher{Events: make(chan Event), Errors: make(chan error), watched: map[string]bool{}}
 	mu.Lock()
 	watchers = append(watchers, w)
+	hook := OnNewWatcher
 	mu.Unlock()
+	if hook != nil {
+		hook()
+	}
 	return w, nil
 }
 
@@ -63,6 +71,7 @@ func Last() *Watcher {
 func Reset() {
 	mu.Lock()
 	watchers = nil
+	OnNewWatcher, OnAdded = nil, nil
 	mu.Unlock()
 }
 
@@ -77,6 +86,14 @@ func (w *Watcher) Add(name string) error {
 		return errors.New("simulated: no such file or directory")
 	}
 	w.watched[name] = true
+	mu.Lock()
+	hook := OnAdded
+	mu.Unlock()
+	if hook != nil {
+		w.mu.Unlock()
+		hook()
+		w.mu.Lock()
+	}
 	return nil
 }
 
